@@ -183,7 +183,7 @@ def check_c20(res, cases, tier, seed):
             evals += 1
             if out_tokens(r1["_sexp"]) != out_tokens(r2["_sexp"]):
                 r2["feature"] = feat
-                fails.append(([r1, r2], "a second compiler run (shuffled invocation order, other processes, the macro built under the other cargo profile) expanded the same invocation differently"))
+                fails.append(([r1, r2], "a second compiler run (shuffled invocation order, other processes, the macro built under the other cargo profile, the corpus crates built as dependencies of another crate) expanded the same invocation differently"))
     return evals, fails
 
 
